@@ -73,8 +73,32 @@ def run(tier):
                    'cfg': flow.write_cfg(wd, 'rp_%d_%d_%s.cfg' % (ps, nreq, reuse), RP_CFG % (ps, nreq, reuse, kf, 5 if q else 6))})
     mc.append({'name': 'deviation KF_NoRespawn: TLC must find the stranded request', 'module': 'RelayPool',
                'cfg': flow.write_cfg(wd, 'rp_kf.cfg', RP_CFG % (1, 3, 'FALSE', 'TRUE', 5)), 'expect_violation': ['C19_NoStranding']})
+    # connection reuse at the level of one client: spec/RelayClient.tla with two messages on one connection
+    import os
+    from .. import behav
+    sets, infos = [], []
+    for nr, lmtp, pipe in ((1, True, False), (1, False, False)):
+        b, info = behav.relayclient(wd, nr, lmtp, pipe, False, nmsg=2)
+        if q:
+            b = b[::6]
+        info['replayed'] = len(b)
+        sets.append({'nr': nr, 'lmtp': lmtp, 'pipe': pipe, 'nmsg': 2, 'behaviours': b})
+        infos.append(info)
+    behfile = os.path.join(wd, 'relayclient_reuse_behaviours.json')
+    behav.save(behfile, sets)
+    for nr, lmtp, pipe in (((1, True, True), (1, False, True)) if q else ((1, True, True), (1, False, True), (2, True, True), (2, False, True))):
+        mc.append({'name': 'RelayClient two messages on one connection, NRcpt=%d lmtp=%s PIPELINING=%s' % (nr, lmtp, pipe), 'module': 'RelayClient',
+                   'cfg': flow.write_cfg(wd, 'rc2_%d_%s_%s.cfg' % (nr, lmtp, pipe), behav.RC_CFG % dict(
+                       nr=nr, lmtp='TRUE' if lmtp else 'FALSE', pipe='TRUE' if pipe else 'FALSE', kf1='FALSE', kf2='FALSE', kf3='FALSE', nmsg=2,
+                       emit='', own='INVARIANT C11_OwnClass'))})
+    mc.append({'name': 'deviation KF_RsetBypass (seeded change C19b-m2): TLC must find the second message failing for the first one\'s refused DATA',
+               'module': 'RelayClient', 'expect_violation': ['C11_Class', 'C11_NoSpuriousFailure', 'C11_OwnClass', 'C11_MailVerdict'],
+               'cfg': flow.write_cfg(wd, 'rc2_kf3.cfg', behav.RC_CFG % dict(nr=1, lmtp='TRUE', pipe='FALSE', kf1='FALSE', kf2='FALSE', kf3='TRUE',
+                                                                          nmsg=2, emit='', own='INVARIANT C11_OwnClass'))})
     return flow.standard(
         'C19', tier, mc, 'c19', 'Trace_Pool', 'Trace_Pool.cfg', [canary_bound, canary_other_result, canary_stranded, canary_foreign_failure],
+        extras=[{'driver': 'c11m', 'module': 'Trace_Pool', 'cfg': 'Trace_Pool.cfg', 'args': (behfile,)}],
+        extra_cov={'model_replay': infos},
         level='model_checking',
         rule='2-4 attempt() calls staggered by eight call/settle/advance schedules through the real StaticSmtpRelay / '
              'StaticLmtpRelay, pool size 1, 2, 3 or unbounded, idle timeout none or 5, PIPELINING on/off, each of up to six '
